@@ -223,7 +223,9 @@ class SysEngine(MempoolEngine):
         elif kind == 'rpc_reorg':
             # only when the server is observed on the daemon's tip: a second forced reorg before the first has been
             # re-advanced would undo more than the window in total (generator artefact, not a property violation)
-            if self.srv.caught_up() and self.uw.forced_ok(min(op[1], w.height() - 1)):
+            same_height_lag = (len(op) > 2 and op[2] == 'on-stale-branch' and self.srv.bp.state.height == w.height()
+                               and self.srv.db.state.height == w.height())
+            if (self.srv.caught_up() or same_height_lag) and self.uw.forced_ok(min(op[1], w.height() - 1)):
                 rpc = self.srv.client(rpc=True)
                 r = await rpc.call('reorg', [op[1]], vtimeout=60)
                 await rpc.close()
@@ -807,7 +809,7 @@ def gen_lag_script(rng, nclients, nscripts):
             script.append(('sleep', rng.choice((0, 1, 6))))
             script.append(('w', 'add'))
             script.append(('sleep', rng.choice((0, 2, 5.1))))
-            script.append(('rpc_reorg', 2))
+            script.append(('rpc_reorg', 2, 'on-stale-branch'))
         script.append(('sleep', rng.choice((20, 40))))
     return script
 
@@ -880,12 +882,12 @@ def gen_script(rng, n_events, nclients, nscripts, *, queries=True, forced=True):
             if rng.random() < 0.4:
                 script.append(('same_switch', rng.randrange(1, 3)))
                 script.append(('sleep', rng.choice((6, 12))))
-                script.append(('rpc_reorg', 3))
+                script.append(('rpc_reorg', 3, 'on-stale-branch'))
             else:
                 script.append(('reorg_same', rng.randrange(1, 3)))
                 if rng.random() < 0.6:
                     script.append(('sleep', rng.choice((0, 1, 6))))
-                    script.append(('rpc_reorg', 2))
+                    script.append(('rpc_reorg', 2, 'on-stale-branch'))
         elif r < 0.7:
             ci = rng.randrange(nclients)
             script.append((rng.choice(('sub', 'sub', 'unsub')), ci, rng.randrange(nscripts)))
